@@ -388,6 +388,66 @@ def attribution_body(ctx, case):
                nontrivial=delayed)
 
 
+# ------------------------------------------------------------------ (4) sessions
+SESSION_METHODS = {"var_read": lambda tok: tok % 256, "query_steps": lambda tok: (tok, -tok),
+                   "query_current": lambda tok: (tok % 1000, tok % 1024), "dio_b_read": lambda tok: bool(tok % 2)}
+
+
+def sessions_body(ctx, case):
+    """One object used over several connections (connect, requests, disconnect / reboot, connect again - each time a
+    new serial object, as pyserial hands out): in every session each request goes out once, to the port of THAT
+    session, and gets that session's reply.  case = [[ending, [[method, args, empties], ...]], ...]"""
+    obj = em.ebb3_motion.EBBMotionWrap()
+    old_ports = []
+    for number, (ending, requests) in enumerate(case):
+        board = Board("ebb3", tokens=True)
+        board.token = 1000 + 5000 * number
+        port, ok = em.attach(obj, board)
+        if not ok or obj.err is not None or obj.port is not port:
+            ctx.fail("session %d: connect() to a conforming board failed (ok=%r, err=%r) after %d earlier "
+                     "session(s) on this object" % (number + 1, ok, obj.err, number), case)
+        for method, args, empties in requests:
+            board.empties = [empties]
+            port.begin_call()
+            stale = [len(p.writes) for p in old_ports]
+            try:
+                result = getattr(obj, method)(*args)
+            except Exception as e:  # pylint: disable=broad-except
+                ctx.fail("session %d: %s%r raised %s: %s" % (number + 1, method, tuple(args), type(e).__name__, e),
+                         case)
+            if [len(p.writes) for p in old_ports] != stale:
+                ctx.fail("session %d: %s%r wrote to the port of an earlier, closed session"
+                         % (number + 1, method, tuple(args)), case)
+            if len(port.written_in_call()) != 1:
+                ctx.fail("session %d: %s%r wrote %r to the open port, expected exactly one request"
+                         % (number + 1, method, tuple(args), port.written_in_call()), case)
+            expected = SESSION_METHODS[method](board.issued[-1][1])
+            if result != expected or obj.err is not None:
+                ctx.fail("session %d: %s%r returned %r (err=%r); the reply to this request decodes to %r"
+                         % (number + 1, method, tuple(args), result, obj.err, expected), case)
+        old_ports.append(port)
+        try:
+            if ending == "reboot":
+                obj.reboot()
+            obj.disconnect()
+        except Exception as e:  # pylint: disable=broad-except
+            ctx.fail("session %d: %s raised %s: %s" % (number + 1, ending, type(e).__name__, e), case)
+    ctx.record(case, {"several_sessions_on_one_object"}, nontrivial=len(case) > 1)
+
+
+@st.composite
+def sessions_cases(draw):
+    out = []
+    for _ in range(draw(st.integers(2, 3))):
+        requests = []
+        for _ in range(draw(st.integers(0, 3))):
+            name = draw(st.sampled_from(sorted(SESSION_METHODS)))
+            args = {"var_read": [draw(st.integers(0, 31))], "dio_b_read": [draw(st.integers(0, 7))]}.get(name, [])
+            requests.append([name, args, draw(st.sampled_from([0, 0, 1, 25]))])
+        out.append([draw(st.sampled_from(["disconnect", "disconnect", "reboot"])), requests])
+    return out
+
+
 EMPTIES = st.one_of(st.sampled_from([0, 0, 1, 2, 24, 25]), st.integers(0, 25))
 
 
@@ -417,13 +477,17 @@ def run(ctx):
     ctx.given("framing", framing_cases(), framing_body, quick=4000, thorough=400000)
     ctx.given("method-fault", method_fault_cases(), method_fault_body, quick=1500, thorough=150000)
     ctx.given("attribution", attribution_cases(), attribution_body, quick=600, thorough=60000)
+    ctx.given("sessions", sessions_cases(), sessions_body, quick=300, thorough=20000)
     if ctx.thorough and ctx.shard == 0:
         from pbt.fuzz import driver
         driver.run_stage(ctx, "c05_framing")
 
 
 def replay(ctx, part, case):
-    if isinstance(case, list):
+    if part == "sessions" or (isinstance(case, list) and case and isinstance(case[0], list)
+                              and case[0] and case[0][0] in ("disconnect", "reboot")):
+        sessions_body(ctx, case)
+    elif isinstance(case, list):
         attribution_body(ctx, case)
     elif "op" in case:
         method_fault_body(ctx, case)
